@@ -13,12 +13,12 @@ solver inside the bound (list construction and islice need concrete sizes).
 from typing import List
 import billiard.pool as bp
 from billiard.einfo import RemoteTraceback
-from harness.hbase import fail, tier, Prune, ND, PART, NPART, untraced, realize, THOROUGH
+from harness.hbase import fail, tier, Prune, ND, PART, NPART, untraced, realize, THOROUGH, NDCode, CODEMAX
 from harness import world as W
 
 NMAX = tier(3, 5)
 CMAX = tier(2, 6)
-K = tier(2, 5)
+K = tier(3, 5)
 KINDS = ('map', 'starmap', 'imap', 'imapu', 'apply')
 
 
@@ -58,14 +58,11 @@ def _is_remote(exc):
 
 
 def _scenario(kind, n, c, p_size, bad, ev, want):
-    n = realize(n)
-    c = realize(c)
-    bad = realize(bad)
     w = W.World()
     with untraced():
         p = w.make_pool(p_size)
     w.pickle_results = True
-    nd = ND(ev)
+    nd = ev
     seq = _seq(kind, n, bad)
     chunk = c if c else None
     if kind == 'map':
@@ -159,39 +156,40 @@ def _scenario(kind, n, c, p_size, bad, ev, want):
     return True
 
 
-def _pre(n, c, bad, ev):
-    return (0 <= n <= NMAX and 0 <= c <= CMAX and 0 <= bad < 2 ** NMAX and len(ev) == K + 1 and 0 <= ev[K] <= 1
-            and (THOROUGH or bad in (0, 1, 2, 4)))          # quick: at most one raising position
-
-
-def _go(n, c, bad, ev, want):
-    # NPART = 5 * (NMAX + 1): job kind x input length; the pool size is the parity of the chunk-size argument's partner
+def _go(code, want):
+    # NPART = 5 * (NMAX + 1): job kind x input length; everything else are digits of one solver integer
+    nd = NDCode(code)
     kind = KINDS[PART % 5]
-    if n != (PART // 5) % (NMAX + 1):
-        return True
-    p_size = 1 + (1 if ev[len(ev) - 1] % 2 else 0)
-    if kind in ('imap', 'imapu', 'apply') and c != 0:
-        return True           # no chunking for these (imap with chunksize > 1 returns a flattening generator: outside)
+    n = (PART // 5) % (NMAX + 1)
+    c = nd.draw(0, CMAX) if kind in ('map', 'starmap') else 0
+    p_size = 1 + nd.draw(0, 1)
+    if THOROUGH:
+        bad = 0
+        for k in range(n):
+            bad |= nd.draw(0, 1) << k           # any subset of raising positions
+    else:
+        k = nd.draw(0, n)                        # quick: at most one raising position
+        bad = 0 if k == n else (1 << k)
     try:
-        return _scenario(kind, n, c, p_size, bad, ev, want)
+        return _scenario(kind, n, c, p_size, bad, nd, want)
     except Prune:
         return True
 
 
-def h_seq(n: int, c: int, bad: int, ev: List[int]) -> bool:
+def h_seq(code: int) -> bool:
     """
-    pre: _pre(n, c, bad, ev)
+    pre: 0 <= code < CODEMAX
     post: _
     """
-    return _go(n, c, bad, ev, False)
+    return _go(code, False)
 
 
-def h_seq_twin(n: int, c: int, bad: int, ev: List[int]) -> bool:
+def h_seq_twin(code: int) -> bool:
     """
-    pre: _pre(n, c, bad, ev)
+    pre: 0 <= code < CODEMAX
     post: _
     """
-    return _go(n, c, bad, ev, True)
+    return _go(code, True)
 
 
 def l_chunking(tier_name):
